@@ -33,7 +33,10 @@ theorem descent_sub : ∀ (fuel depth ipix v : Nat) (strict : Bool) (t : Nat) (c
     intro depth ipix v strict t cs h c hc
     simp only [descent] at h
     split at h
-    · injection h with h; subst h
+    · by_cases ht0 : t = 0
+      · rw [if_pos ht0] at h; injection h with h; subst h; cases hc
+      rw [if_neg ht0] at h
+      injection h with h; subst h
       split at hc
       · simp at hc; rw [hc]; exact SubCell.self _ _
       · cases hc
@@ -42,7 +45,10 @@ theorem descent_sub : ∀ (fuel depth ipix v : Nat) (strict : Bool) (t : Nat) (c
     intro depth ipix v strict t cs h c hc
     simp only [descent] at h
     split at h
-    · generalize takeSub (v / 4) 5 0 t = r at h
+    · by_cases ht0 : t = 0
+      · rw [if_pos ht0] at h; injection h with h; subst h; cases hc
+      rw [if_neg ht0] at h
+      generalize takeSub (v / 4) 5 0 t = r at h
       obtain ⟨k, t'⟩ := r
       simp only [] at h
       split at h
@@ -68,7 +74,10 @@ theorem descentR_sub : ∀ (fuel depth ipix v : Nat) (strict : Bool) (t : Nat) (
     intro depth ipix v strict t cs h c hc
     simp only [descentR] at h
     split at h
-    · injection h with h; subst h
+    · by_cases ht0 : t = 0
+      · rw [if_pos ht0] at h; injection h with h; subst h; cases hc
+      rw [if_neg ht0] at h
+      injection h with h; subst h
       split at hc
       · simp at hc; rw [hc]; exact SubCell.self _ _
       · cases hc
@@ -77,7 +86,10 @@ theorem descentR_sub : ∀ (fuel depth ipix v : Nat) (strict : Bool) (t : Nat) (
     intro depth ipix v strict t cs h c hc
     simp only [descentR] at h
     split at h
-    · generalize takeSub (v / 4) 5 0 t = r at h
+    · by_cases ht0 : t = 0
+      · rw [if_pos ht0] at h; injection h with h; subst h; cases hc
+      rw [if_neg ht0] at h
+      generalize takeSub (v / 4) 5 0 t = r at h
       obtain ⟨k, t'⟩ := r
       simp only [] at h
       split at h
@@ -103,7 +115,10 @@ theorem descentRev_sub : ∀ (fuel depth ipix v : Nat) (strict : Bool) (t : Nat)
     intro depth ipix v strict t cs h c hc
     simp only [descentRev] at h
     split at h
-    · injection h with h; subst h
+    · by_cases ht0 : t = 0
+      · rw [if_pos ht0] at h; injection h with h; subst h; simp at hc; rw [hc]; exact SubCell.self _ _
+      rw [if_neg ht0] at h
+      injection h with h; subst h
       split at hc
       · simp at hc; rw [hc]; exact SubCell.self _ _
       · cases hc
@@ -112,7 +127,10 @@ theorem descentRev_sub : ∀ (fuel depth ipix v : Nat) (strict : Bool) (t : Nat)
     intro depth ipix v strict t cs h c hc
     simp only [descentRev] at h
     split at h
-    · generalize takeSub (v / 4) 5 0 t = r at h
+    · by_cases ht0 : t = 0
+      · rw [if_pos ht0] at h; injection h with h; subst h; simp at hc; rw [hc]; exact SubCell.self _ _
+      rw [if_neg ht0] at h
+      generalize takeSub (v / 4) 5 0 t = r at h
       obtain ⟨k, t'⟩ := r
       simp only [] at h
       split at h
@@ -133,34 +151,42 @@ theorem descentRev_sub : ∀ (fuel depth ipix v : Nat) (strict : Bool) (t : Nat)
       · cases h
     · cases h
 
-theorem descentRRev_sub (fuel depth ipix v : Nat) (strict : Bool) (t : Nat) (cs : List Cell)
-    (h : descentRRev fuel depth ipix v strict t = some cs) : ∀ c ∈ cs, SubCell depth ipix c := by
-  intro c hc
-  cases fuel with
+theorem descentRRev_sub : ∀ (fuel depth ipix v : Nat) (strict : Bool) (t : Nat) (cs : List Cell),
+    descentRRev fuel depth ipix v strict t = some cs → ∀ c ∈ cs, SubCell depth ipix c := by
+  intro fuel
+  induction fuel with
   | zero =>
+    intro depth ipix v strict t cs h c hc
     simp only [descentRRev] at h
     split at h
-    · injection h with h; subst h
+    · by_cases ht0 : t = 0
+      · rw [if_pos ht0] at h; injection h with h; subst h; simp at hc; rw [hc]; exact SubCell.self _ _
+      rw [if_neg ht0] at h
+      injection h with h; subst h
       split at hc
       · simp at hc; rw [hc]; exact SubCell.self _ _
       · cases hc
     · cases h
-  | succ f =>
+  | succ f ih =>
+    intro depth ipix v strict t cs h c hc
     simp only [descentRRev] at h
     split at h
-    · generalize takeSub (v / 4) 5 0 t = r at h
+    · by_cases ht0 : t = 0
+      · rw [if_pos ht0] at h; injection h with h; subst h; simp at hc; rw [hc]; exact SubCell.self _ _
+      rw [if_neg ht0] at h
+      generalize takeSub (v / 4) 5 0 t = r at h
       obtain ⟨k, t'⟩ := r
       simp only [] at h
       split at h
       · rename_i hk
-        cases hd : descentRev f (depth + 1) (ipix * 4 + (3 - k)) (v / 4) strict t' with
+        cases hd : descentRRev f (depth + 1) (ipix * 4 + (3 - k)) (v / 4) strict t' with
         | none => rw [hd] at h; cases h
         | some rest =>
           rw [hd] at h
           simp only [Option.map_some, Option.some.injEq] at h
           subst h
           rcases List.mem_append.1 hc with hc | hc
-          · exact SubCell.trans (by omega) (descentRev_sub _ _ _ _ _ _ _ hd c hc)
+          · exact SubCell.trans (by omega) (ih _ _ _ _ _ _ hd c hc)
           · obtain ⟨i, hi, rfl⟩ := List.mem_map.1 hc
             have := List.mem_range.1 hi
             exact SubCell.child _ _ _ (by omega)
